@@ -95,7 +95,7 @@ Qed.
 
 Lemma bbox32_good : forall D a pts,
   (forall p, In p pts -> (a + D <= length p)%nat) -> coords_finite_f64 pts ->
-  exists bb, bbox32 D a pts = Some bb /\ length bb = D
+  exists bb, bbox32 false D a pts = Some bb /\ length bb = D
     /\ Forall (fun b : spec_float * spec_float => good32 (fst b) = true /\ good32 (snd b) = true) bb.
 Proof.
   induction D as [|D IH]; intros a pts Hshape Hf; cbn [bbox32].
@@ -110,21 +110,21 @@ Proof.
     destruct (bbox_axis_finite col f64_max_value f64_min_value Hcf eq_refl eq_refl) as [F1 F2].
     destruct (bbox_axis f64_max_value f64_min_value col) as [lo hi]. cbn [fst snd] in F1, F2.
     eexists. split; [reflexivity|]. split; [cbn [length]; f_equal; exact Hl|].
-    constructor; [|exact Hg]. cbn [fst snd]. split; apply to32_good; assumption.
+    constructor; [|exact Hg]. cbn [fst snd]. unfold cast32. split; apply to32_good; assumption.
 Qed.
 
 (* Totality for every finite f64 coordinate set: no panic, no OutOfFuel, for the
    stop rules at HEAD with the last probe at max and the overflow-free
    midpoint, every schedule and tolerance *)
-Theorem rcb_total_finite_f64 : forall v fuel sched D k tol pts ws p0,
-  v_old v = false -> v_probe_max v = true -> v_safe_mid v = true ->
+Theorem rcb_total_finite_f64_unclamped : forall v fuel sched D k tol pts ws p0,
+  v_old v = false -> v_probe_max v = true -> v_safe_mid v = true -> v_clamp v = false ->
   (0 < D)%nat -> length ws = length p0 -> length pts = length p0 ->
   Forall (fun p => length p = D) pts -> coords_finite_f64 pts ->
   Z.of_nat fuel > 2 ^ 34 ->
   exists p, rcb v fuel sched D k tol pts ws p0 = Ok p.
 Proof.
-  intros v fuel sched D k tol pts ws p0 Hold Hpm Hsafe HD E1 E2 HDl Hfin Hfuel. unfold rcb.
-  rewrite E1, E2, !Nat.eqb_refl. cbn [negb].
+  intros v fuel sched D k tol pts ws p0 Hold Hpm Hsafe Hcl HD E1 E2 HDl Hfin Hfuel. unfold rcb.
+  rewrite E1, E2, !Nat.eqb_refl, Hcl. cbn [negb].
   destruct pts as [|pt0 pts']; [eexists; reflexivity|]. set (pts := pt0 :: pts') in *.
   destruct (bbox32_good D 0%nat pts) as (bb & Ebb & Hlb & Hgb).
   { intros p Hp. rewrite Forall_forall in HDl. rewrite (HDl p Hp). lia. }
@@ -137,7 +137,7 @@ Proof.
            good32 rank32i (- (2 ^ 32 + 1)) (2 ^ 32 + 1) mid_good32 rank32i_mono rank32i_bounds).
   - exact HD.
   - exact Hlb.
-  - rewrite Forall_forall. intros it Hit. destruct (mk_items_len pts ws 0%N it Hlen Hit) as (p & Hp & Hco).
+  - rewrite Forall_forall. intros it Hit. destruct (mk_items_len false pts ws 0%N it Hlen Hit) as (p & Hp & Hco).
     split.
     + rewrite Hco, map_length. rewrite Forall_forall in HDl. apply HDl, Hp.
     + unfold vitem. unfold coords_ok in Hok. rewrite Forall_forall in Hok. apply Hok.
@@ -149,8 +149,68 @@ Proof.
   - lia.
 Qed.
 
-(* totality together with what the Ok result is: one id per point, every id
-   below 2^iter_count *)
+(* ---------- with the clamped cast every image is finite ---------- *)
+Lemma finite_valid64_finite pts : coords_finite_valid64 pts -> coords_finite_f64 pts.
+Proof.
+  unfold coords_finite_valid64, coords_finite_f64. intros H. rewrite Forall_forall in *. intros p Hp. specialize (H p Hp).
+  rewrite Forall_forall in *. intros c Hc. exact (proj2 (H c Hc)).
+Qed.
+
+Lemma bbox32_fin_clamped : forall D a pts,
+  (forall p, In p pts -> (a + D <= length p)%nat) -> coords_finite_f64 pts ->
+  exists bb, bbox32 true D a pts = Some bb /\ length bb = D
+    /\ Forall (fun b : spec_float * spec_float => f32_fin (fst b) = true /\ f32_fin (snd b) = true) bb.
+Proof.
+  induction D as [|D IH]; intros a pts Hshape Hf; cbn [bbox32].
+  - exists []. repeat split; constructor.
+  - destruct (column_total a pts) as [col Hcol]; [intros p Hp; specialize (Hshape p Hp); lia|]. rewrite Hcol.
+    destruct (IH (S a) pts) as (r & Hr & Hl & Hg); [intros p Hp; specialize (Hshape p Hp); lia|exact Hf|]. rewrite Hr.
+    destruct (column_spec a pts col Hcol) as [_ Cout].
+    assert (Hcf : Forall (fun c => SFloat.is_finite c = true) col).
+    { rewrite Forall_forall. intros c Hc. destruct (Cout c Hc) as (p & Hp & Hn).
+      unfold coords_finite_f64 in Hf. rewrite Forall_forall in Hf. specialize (Hf p Hp).
+      rewrite Forall_forall in Hf. apply Hf. eapply nth_opt_In; exact Hn. }
+    destruct (bbox_axis_finite col f64_max_value f64_min_value Hcf eq_refl eq_refl) as [F1 F2].
+    destruct (bbox_axis f64_max_value f64_min_value col) as [lo hi]. cbn [fst snd] in F1, F2.
+    eexists. split; [reflexivity|]. split; [cbn [length]; f_equal; exact Hl|].
+    constructor; [|exact Hg]. cbn [fst snd]. split; [exact (proj1 (cast_true_real lo F1))|exact (proj1 (cast_true_real hi F2))].
+Qed.
+
+Theorem rcb_total_finite_f64_clamped : forall v fuel sched D k tol pts ws p0,
+  v_old v = false -> v_safe_mid v = true -> v_clamp v = true ->
+  (0 < D)%nat -> length ws = length p0 -> length pts = length p0 ->
+  Forall (fun p => length p = D) pts -> coords_finite_f64 pts ->
+  Z.of_nat fuel > 2 ^ 33 ->
+  exists p, rcb v fuel sched D k tol pts ws p0 = Ok p.
+Proof.
+  intros v fuel sched D k tol pts ws p0 Hold Hsafe Hcl HD E1 E2 HDl Hfin Hfuel. unfold rcb.
+  rewrite E1, E2, !Nat.eqb_refl, Hcl. cbn [negb].
+  destruct pts as [|pt0 pts']; [eexists; reflexivity|]. set (pts := pt0 :: pts') in *.
+  destruct (bbox32_fin_clamped D 0%nat pts) as (bb & Ebb & Hlb & Hgb).
+  { intros p Hp. rewrite Forall_forall in HDl. rewrite (HDl p Hp). lia. }
+  { exact Hfin. }
+  rewrite Ebb, Hold, Hsafe.
+  assert (Hlen : length pts = length ws) by lia.
+  pose proof (finite_coords_ok pts Hfin) as Hok.
+  apply (rcb_core_total spec_float flt fle (f32_mid true) f32_sub f32_add f32_zero f32_inf (tol_test tol)
+           (v_by_coord v) (v_probe_max v) f32v flt_irrefl flt_negtrans fle_flt
+           f32_fin rank32 (- 2 ^ 32) (2 ^ 32) mid_fin32 rank32_mono rank32_bounds).
+  - exact HD.
+  - exact Hlb.
+  - rewrite Forall_forall. intros it Hit. destruct (mk_items_len true pts ws 0%N it Hlen Hit) as (p & Hp & Hco).
+    split.
+    + rewrite Hco, map_length. rewrite Forall_forall in HDl. apply HDl, Hp.
+    + unfold vitem. pose proof (coords_okc true pts Hok) as Hok'. rewrite Forall_forall in Hok'. apply Hok'.
+      rewrite Hco. unfold to32c. apply in_map, Hp.
+  - exact Hgb.
+  - rewrite mk_items_ix by exact Hlen. rewrite E2. reflexivity.
+  - unfold pts. destruct ws; [cbn in Hlen; discriminate|]. cbn. discriminate.
+  - assert (0 < Z.of_nat fuel) by lia. lia.
+  - lia.
+Qed.
+
+(* totality for every finite f64 coordinate set, whichever cast the variant uses, together with what the Ok result is: one
+   id per point, every id below 2^iter_count *)
 Theorem rcb_total_finite_f64_ids : forall v fuel sched D k tol pts ws p0,
   v_old v = false -> v_probe_max v = true -> v_safe_mid v = true ->
   (0 < D)%nat -> length ws = length p0 -> length pts = length p0 ->
@@ -159,9 +219,12 @@ Theorem rcb_total_finite_f64_ids : forall v fuel sched D k tol pts ws p0,
   exists p, rcb v fuel sched D k tol pts ws p0 = Ok p
             /\ length p = length pts /\ Forall (fun i => (i < 2 ^ N.of_nat k)%N) p.
 Proof.
-  intros v fuel sched D k tol pts ws p0 Hold Hpm Hsafe HD E1 E2 Hs Hf Hfuel.
-  destruct (rcb_total_finite_f64 v fuel sched D k tol pts ws p0 Hold Hpm Hsafe HD E1 E2 Hs Hf Hfuel) as [p Hp].
-  exists p. split; [exact Hp|].
-  destruct (rcb_bisect_tree v _ _ _ _ _ _ _ _ _ (finite_coords_ok pts Hf) Hp) as (Hl & _ & Hr).
+  intros v fuel sched D k tol pts ws p0 Hold Hpm Hsafe HD E1 E2 Hs Hfin Hfuel.
+  assert (Hex : exists p, rcb v fuel sched D k tol pts ws p0 = Ok p).
+  { destruct (v_clamp v) eqn:Hcl.
+    - apply rcb_total_finite_f64_clamped; try assumption. lia.
+    - apply rcb_total_finite_f64_unclamped; assumption. }
+  destruct Hex as [p Hp]. exists p. split; [exact Hp|].
+  destruct (rcb_bisect_tree v _ _ _ _ _ _ _ _ _ (finite_coords_ok pts Hfin) Hp) as (Hl & _ & Hr).
   split; [exact Hl|]. destruct pts as [|pt0 t]; [destruct p; [constructor|discriminate]|apply Hr; discriminate].
 Qed.
